@@ -61,7 +61,7 @@ def _case(draw, tier):
         c["opts"] = ["algo"]
         c["algo"] = draw(st.one_of(gen.algo_spelling(), gen.algo_spelling(), st.sampled_from(["sm3"])))
     elif verb == "create":
-        c["existing"] = draw(st.sampled_from(["absent", "absent", "same", "different"]))
+        c["existing"] = draw(st.sampled_from(["absent", "absent", "same", "different", "data-no-yaml", "populated-same"]))
         c["new"] = {"depth": draw(st.integers(1, 4)), "width": draw(st.integers(1, 3)),
                     "algo": draw(st.one_of(st.sampled_from(sorted(common.STORE_ALGOS)), st.sampled_from(["sha256", "SHA-224"]))),
                     "ns": draw(st.sampled_from([common.DEFAULT_NS, "http://ns.example/v9"]))}
@@ -218,13 +218,21 @@ def _create(case, ctx, run, desc):
     rootC, rootA = os.path.join(work, "createC"), os.path.join(work, "createA")
     existing = case["existing"]
     old = {"depth": 3, "width": 2, "algo": "SHA-256", "ns": common.DEFAULT_NS}
-    if existing == "same":
+    if existing in ("same", "populated-same"):
         old = dict(new)
         if old["algo"] not in common.STORE_ALGOS:
             old["algo"] = "SHA-256"
     if existing != "absent":
         for r in (rootC, rootA):
-            common.make_store(r, common.Cfg.from_json(old))
+            s0 = common.make_store(r, common.Cfg.from_json(old))
+            if existing in ("data-no-yaml", "populated-same"):
+                # a store that holds data; "data-no-yaml": its configuration file has gone missing (creation must be refused
+                # by API and client alike, and the data must survive the refusal)
+                f0 = common.write_file(os.path.join(work, "obj0"), b"data that was here before")
+                call(s0.store_object, "was/here:before", f0)
+                call(s0.store_metadata, "was/here:before", f0)
+                if existing == "data-no-yaml":
+                    os.remove(os.path.join(r, "hashstore.yaml"))
     props = {"store_path": rootA, "store_depth": new["depth"], "store_width": new["width"],
              "store_algorithm": new["algo"], "store_metadata_namespace": new["ns"]}
     outA = call(common.hs().FileHashStore, props)
